@@ -1732,6 +1732,19 @@ def mon_c08_valid(case_line, acts, only=None):
                 inb += bytes.fromhex(e[3])
         frames, tail, err = mqttspec.split_stream(inb[ipos:])
         ipos += sum(len(raw) for _, _, raw in frames)
+        if a.result == 'err InvalidPacket' and not frames and tail and not err and only is None:
+            # refused on its header, before the body was read: all the client has seen is the first byte and the length
+            try:
+                n, j = mqttspec.varint(tail, 1)
+            except (IndexError, mqttspec.Malformed):
+                n = None
+            typ, flags = tail[0] >> 4, tail[0] & 15
+            legal = (typ == 3 and (flags >> 1) & 3 != 3 and not ((flags >> 1) & 3 == 0 and flags & 8)) or \
+                    (typ in SERVER_FLAGS and flags == SERVER_FLAGS[typ])
+            if n is not None and legal and j + n <= rxcap and len(tail) < j + n and (typ == 2) == (a.code == 0):
+                out.append(V('a packet announced with %d bytes, which fits the receive buffer of %d bytes, was refused on its header '
+                             '(%s) at action #%d' % (j + n, rxcap, bytes(tail[:j]).hex(), i)))
+            continue
         if a.result != 'err InvalidPacket' or not frames or tail or err:
             continue
         first, body, raw = frames[-1]
